@@ -529,6 +529,33 @@ def rule_root(ctx):
                 r.violation('%s:announce' % b.path, t['s'], b.path,
                             'this streaming variant announces a map\'s sources wrongly: %s (differs from its sibling variants; '
                             'shows only for this (columns, final) mode)' % '; '.join(problems))
+    # the root is applied verbatim: whatever reads source_root() only tests it (empty? ends with '/'?) or formats it — it is
+    # never transformed (trimmed, lower-cased, ...) before being joined with the source
+    VERBATIM = {'ends_with', 'starts_with', 'is_empty', 'len', 'eq', 'ne', 'new_display', 'fmt', 'as_str', 'as_ref', 'deref',
+                'as_deref', 'unwrap', 'unwrap_or', 'unwrap_or_default', 'map', 'is_some', 'is_none', 'clone', 'to_owned',
+                'to_string', 'into', 'from', 'push_str', 'as_bytes', 'last', 'chars', 'borrow'}
+    for b in f.body_list:
+        if b.promoted is not None:
+            continue
+        roots_ = [pt for pt, t in b.calls() if t.get('callee') and t['callee']['name'] == 'source_root'
+                  and t['callee'].get('impl_adt') == sm]
+        if not roots_ or b.d.get('impl_adt') == sm:
+            continue
+        for pt, t in b.calls():
+            c = t.get('callee')
+            if not c or not t['args'] or c['name'] == 'source_root':
+                continue
+            e = b.expr_of_operand(t['args'][0])
+            derived = any(x[0] == 'call' and x[1].endswith('::source_root') for x, _fs in access_paths(
+                e, through_calls={'deref', 'as_deref', 'unwrap', 'as_ref', 'unwrap_or', 'unwrap_or_default', 'as_str', 'borrow'}))
+            if not derived:
+                continue
+            ok = c['name'] in VERBATIM
+            r.site('%s: sourceRoot value used by `%s`' % (b.path, c['name']), t['s'], 'ok' if ok else 'violation')
+            if not ok:
+                r.violation('%s:root-transformed:%s' % (b.path, c['name']), t['s'], b.path,
+                            'the sourceRoot string is transformed by `%s` before it is joined with the source: roots such as '
+                            '"webpack:///" are no longer applied verbatim' % c['path'])
     r.check_floor()
     return r
 
